@@ -37,6 +37,16 @@ impl MessageBody for Tok {
     }
 }
 
+/// start time of the running simulation (ns); logged times are relative to it
+static BASE: std::sync::atomic::AtomicU64 = std::sync::atomic::AtomicU64::new(0);
+const FAR_NS: u64 = 20_000_000_123_456_789;
+fn base() -> u64 {
+    BASE.load(SeqCst)
+}
+fn rel_now() -> u128 {
+    SimTime::now().as_nanos() - u128::from(base())
+}
+
 type Log = Arc<Mutex<Vec<(u16, u128)>>>;
 /// (time, is_busy, transmission_finish_time ns) sampled at the start of every sender tick
 type BusyLog = Arc<Mutex<Vec<(u128, bool, u128)>>>;
@@ -52,12 +62,12 @@ const DATA: u16 = 500;
 impl Module for Tx {
     fn at_sim_start(&mut self, _: usize) {
         for (k, (t, _)) in self.ticks.iter().enumerate() {
-            schedule_at(Message::default().kind(k as u16), SimTime::from_duration(Duration::from_nanos(*t)));
+            schedule_at(Message::default().kind(k as u16), SimTime::from_duration(Duration::from_nanos(base() + *t)));
         }
     }
     fn handle_message(&mut self, m: Message) {
         if m.header().kind == DATA {
-            self.back.lock().unwrap().push((m.header().id, SimTime::now().as_nanos()));
+            self.back.lock().unwrap().push((m.header().id, rel_now()));
             return;
         }
         if m.header().kind == 499 {
@@ -70,7 +80,7 @@ impl Module for Tx {
             schedule_in(Message::default().kind(499), Duration::from_secs(5));
         }
         if let Some(ch) = current().gate("out", 0).and_then(|g| g.channel()) {
-            self.busy.lock().unwrap().push((SimTime::now().as_nanos(), ch.is_busy(), ch.transmission_finish_time().as_nanos()));
+            self.busy.lock().unwrap().push((rel_now(), ch.is_busy(), ch.transmission_finish_time().as_nanos().saturating_sub(u128::from(base()))));
         }
         for &(id, len) in &self.ticks[k].1 {
             let msg = Message::default().kind(DATA).id(id).with_content(Tok::new(len));
@@ -98,12 +108,12 @@ struct Rx {
 impl Module for Rx {
     fn at_sim_start(&mut self, _: usize) {
         for (k, (t, _)) in self.ticks.iter().enumerate() {
-            schedule_at(Message::default().kind(k as u16), SimTime::from_duration(Duration::from_nanos(*t)));
+            schedule_at(Message::default().kind(k as u16), SimTime::from_duration(Duration::from_nanos(base() + *t)));
         }
     }
     fn handle_message(&mut self, m: Message) {
         if m.header().kind == DATA {
-            self.log.lock().unwrap().push((m.header().id, SimTime::now().as_nanos()));
+            self.log.lock().unwrap().push((m.header().id, rel_now()));
             return;
         }
         for &(id, len) in &self.ticks[m.header().kind as usize].1 {
@@ -230,12 +240,14 @@ struct Case {
     two_hops: bool,
     /// both ends offer the same traffic at the same instants over the one connection
     duplex: bool,
+    /// the simulation starts at 20000000.123456789 s instead of zero (all times relative to the start)
+    far: bool,
 }
 
 fn case_json(c: &Case) -> Value {
     json!({"bitrate": c.bitrate, "latency_ns": c.lat, "jitter_ns": c.jit,
            "policy": match c.pol { Pol::Drop => json!("drop"), Pol::Q(None) => json!("queue_unbounded"), Pol::Q(Some(l)) => json!({"queue_bytes": l}) },
-           "offers": c.offers.iter().map(|o| json!([o.0 as u64, o.1, o.2])).collect::<Vec<_>>(), "two_hops": c.two_hops, "duplex": c.duplex})
+           "offers": c.offers.iter().map(|o| json!([o.0 as u64, o.1, o.2])).collect::<Vec<_>>(), "two_hops": c.two_hops, "duplex": c.duplex, "far_start": c.far})
 }
 fn case_from(v: &Value) -> Case {
     let p = &v["policy"];
@@ -253,6 +265,7 @@ fn case_from(v: &Value) -> Case {
         offers: v["offers"].as_array().unwrap().iter().map(|o| (u128::from(o[0].as_u64().unwrap()), o[1].as_u64().unwrap() as u16, o[2].as_u64().unwrap() as usize)).collect(),
         two_hops: v["two_hops"].as_bool().unwrap_or(false),
         duplex: v["duplex"].as_bool().unwrap_or(false),
+        far: v["far_start"].as_bool().unwrap_or(false),
     }
 }
 
@@ -272,6 +285,8 @@ fn run_case(c: &Case, facts: &mut Facts) -> Result<u64, String> {
     facts.dropped = allowed.iter().any(|o| o.deliver.iter().any(Option::is_none));
     facts.queued = allowed.iter().any(|o| o.busy.len() > 1 && o.busy.windows(2).any(|w| w[0].1 == w[1].0));
     facts.sub_ns = c.offers.iter().any(|o| tx_ns(o.2 + 64, c.bitrate) == 0 && c.bitrate > 0);
+    let far = c.far;
+    BASE.store(if far { FAR_NS } else { 0 }, SeqCst);
     let res = quiet_catch(move || {
         let c = c2;
         let mut ticks: Vec<(u64, Vec<(u16, usize)>)> = vec![];
@@ -310,7 +325,11 @@ fn run_case(c: &Case, facts: &mut Facts) -> Result<u64, String> {
         } else {
             sim.gate("tx", "out").connect(sim.gate("rx", "in"), Some(Channel::new(metrics)));
         }
-        let r = Builder::seeded(1).quiet().cqueue_options(16, Duration::from_micros(50)).build(sim.freeze()).run();
+        let r = if far {
+            Builder::seeded(1).quiet().cqueue_options(16, Duration::from_secs(1000)).start_time(SimTime::from_duration(Duration::from_nanos(FAR_NS))).build(sim.freeze()).run()
+        } else {
+            Builder::seeded(1).quiet().cqueue_options(16, Duration::from_micros(50)).build(sim.freeze()).run()
+        };
         let ok_run = r.is_ok();
         let live_after_run = LIVE.load(SeqCst);
         drop(r);
@@ -413,7 +432,7 @@ impl Property for C07 {
     fn rule(&self, tier: Tier) -> String {
         format!(
             "bitrate in {{0, 8 kbit/s, 1 Mbit/s, 2e12 (sub-ns transmission)}} x latency {{0, 1 ms}} x jitter {{0, 1 ms}} x policy {{Drop, Queue(None), Queue(0), Queue(163), Queue(164), Queue(329), Queue(1164)}} \
-             x every traffic pattern of 1..={} messages with body sizes {{0, 100, 936}} B (lengths 64, 164 and 1000 B: at 8 kbit/s the last one takes exactly one second) and gaps {{0 = burst in one handler, tx/2, tx, tx+1ns, 3tx}} (tx = transmission time of a 164 B message), plus bursts of 9 / 33 / 40 / 70 messages offered by one handler call that arms a later self message before and an earlier one after the burst, plus a 2-hop variant through a forwarding module, plus a duplex variant in which the receiver offers the same traffic at the same instants in the opposite direction over the one connection (each direction must behave as a channel of its own); \
+             x every traffic pattern of 1..={} messages with body sizes {{0, 100, 936}} B (lengths 64, 164 and 1000 B: at 8 kbit/s the last one takes exactly one second) and gaps {{0 = burst in one handler, tx/2, tx, tx+1ns, 3tx}} (tx = transmission time of a 164 B message), plus bursts of 9 / 33 / 40 / 70 messages offered by one handler call that arms a later self message before and an earlier one after the burst, plus, for patterns of up to 2 messages, the same traffic in a simulation that starts at 20000000.123456789 s (times relative to the start must be the same to the nanosecond), plus a 2-hop variant through a forwarding module, plus a duplex variant in which the receiver offers the same traffic at the same instants in the opposite direction over the one connection (each direction must behave as a channel of its own); \
              oracle: reference channel (each message delivered exactly once at start + size*8/bitrate + latency + [0, jitter) or dropped by the stated rule; FIFO start at the idle instant; order preserved with zero jitter; no body alive after the run; is_busy / transmission_finish_time sampled at every sender tick); \
              same-instant ties (offer exactly when the channel goes idle; busy sample exactly at an interval boundary) accept both resolutions; non-trivial = pattern in which a message meets a busy channel",
             tier.pick(4, 5)
@@ -426,7 +445,7 @@ impl Property for C07 {
         ]
     }
     fn required_features(&self, _tier: Tier) -> Vec<&'static str> {
-        vec!["message_dropped_by_rule", "message_queued_then_sent_at_idle_instant", "same_instant_tie", "sub_ns_transmission", "two_hop_variant", "byte_limit_edge", "both_directions_at_once", "long_burst_from_one_handler"]
+        vec!["message_dropped_by_rule", "message_queued_then_sent_at_idle_instant", "same_instant_tie", "sub_ns_transmission", "two_hop_variant", "byte_limit_edge", "both_directions_at_once", "long_burst_from_one_handler", "simulation_starting_beyond_2^24_seconds"]
     }
     fn explore(&self, ctx: &mut Ctx) {
         // long bursts offered by one handler call (after it armed an earlier self message)
@@ -437,7 +456,7 @@ impl Property for C07 {
                         continue;
                     }
                     let offers: Vec<(u128, u16, usize)> = (0..n).map(|i| (1000u128, i as u16, if i % 3 == 0 { 100 } else { 0 })).collect();
-                    let c = Case { bitrate: br, lat: 1_000_000, jit: 0, pol, offers, two_hops: false, duplex: false };
+                    let c = Case { bitrate: br, lat: 1_000_000, jit: 0, pol, offers, two_hops: false, duplex: false, far: false };
                     let mut f = Facts::default();
                     ctx.begin(|| case_json(&c));
                     ctx.out.evaluations += 1;
@@ -484,7 +503,17 @@ impl Property for C07 {
                                         }
                                         offers.push((t, i as u16, s));
                                     }
-                                    let c = Case { bitrate: br, lat, jit, pol, offers, two_hops, duplex };
+                                    let c = Case { bitrate: br, lat, jit, pol, offers, two_hops, duplex, far: false };
+                                    if m <= 2 && !two_hops {
+                                        // the same traffic in a simulation that starts far from zero
+                                        let cf = Case { far: true, ..c.clone() };
+                                        ctx.begin(|| case_json(&cf));
+                                        ctx.out.evaluations += 1;
+                                        ctx.hit("simulation_starting_beyond_2^24_seconds");
+                                        if let Err(d) = run_case(&cf, &mut Facts::default()) {
+                                            ctx.violation("violation", || case_json(&cf), d);
+                                        }
+                                    }
                                     if duplex {
                                         ctx.hit("both_directions_at_once");
                                     }
